@@ -103,7 +103,7 @@ package main
 //@     invariant fresh(decs) && fresh(closer)
 
 //@ func encode
-//@   property C13 C08
+//@   property C13 C08 C07
 //@   returns (err)
 //@   requires [at-least-one-file] len(files) >= 1
 //@   ghost n int = 0
